@@ -175,6 +175,25 @@ let run_recv fields = match fields with
      | RErrFuel -> "E:fuel")
   | _ -> failwith "recv: want 3 fields"
 
+(* ---- mux: frames through the demultiplexer and the buffered reader ---- *)
+let run_mux fields = match fields with
+  | [bsz; stream; sizes] ->
+    let bsz = z_of_string bsz in
+    let sizes = List.map z_of_string (split ',' sizes) in
+    let rec go st sizes acc = match sizes with
+      | [] -> List.rev acc
+      | n :: rest ->
+        let fuel = Z.to_nat (Z.add (Z.add n (z_of_int (List.length st.bsrc))) (z_of_int 2)) in
+        (match read_full fuel bsz n [] st with
+         | BOk (got, st') -> go st' rest (("ok:" ^ hex_of_bytes got) :: acc)
+         | BErrMsg m -> List.rev (("errmsg:" ^ hex_of_bytes m) :: acc)
+         | BErrTag _ -> List.rev ("tag" :: acc)
+         | BErrIO -> List.rev ("eof" :: acc)
+         | BErrLong -> List.rev ("long" :: acc)
+         | BCrash -> List.rev ("crash" :: acc)) in
+    String.concat ";" (go { bbuf = []; bsrc = bytes_of_hex stream } sizes [])
+  | _ -> failwith "mux: want 3 fields"
+
 (* ---- acl ---- *)
 let acl_rule (t : string) : rule =
   match split ':' t with
@@ -205,6 +224,7 @@ let dispatch comp fields =
   | "md4" -> run_md4 fields
   | "sender" -> run_sender fields
   | "recv" -> run_recv fields
+  | "mux" -> run_mux fields
   | _ -> failwith ("unknown component " ^ comp)
 
 let () =
